@@ -104,3 +104,38 @@ func zzH_C06_pool_select_upgrade_cleanup(t *zzT) {
 	}
 	t.Reach("end")
 }
+
+// C09 "no … message received from a peer can … hang the node" (single commits on the gossip topic) and the
+// pool's own liveness: the same single commit may reach Pool.Add twice (two gossip messages whose validator
+// goroutines both passed Has before either reached Add), possibly while it already sits in the gossiped or
+// the non-gossiped list. Every pool operation afterwards — Has, Get, Select, Upgrade, Cleanup, Add — returns
+// (a mutex left locked by any branch of Add shows as a self-deadlock / blocked operation), and the pool
+// still answers Has for the commit.
+//
+//zz:opt loop=32 require=end
+func zzH_C09_single_commit_duplicate_add(t *zzT) {
+	mk := func(tag byte) *SingleCommit {
+		return &SingleCommit{blockID: []byte{tag}, height: uint32(10 + tag), validatorAddress: []byte{0xa0, tag}, certificateSignature: []byte{tag}}
+	}
+	p := NewPool()
+	c := mk(1)
+	switch t.Choice("already", 3) {
+	case 1:
+		p.nonGossiped = append(p.nonGossiped, mk(1)) // an equal commit is pooled already
+	case 2:
+		p.gossiped = append(p.gossiped, mk(1))
+	}
+	p.Add(c)
+	p.Add(mk(1)) // the duplicate
+	t.Assert(p.Has(c), "the commit is in the pool after the adds")
+	_ = p.Get(c.height)
+	sel := p.Select(t.U32("maxHeightPrecommited"), 5)
+	p.Upgrade(sel)
+	p.Cleanup(func(h uint32) bool { return true })
+	p.Add(mk(2))
+	t.Assert(p.Has(mk(2)), "the pool still accepts and finds another commit")
+	t.Reach("end")
+}
+
+//zz:opt loop=32 require=end
+func zzH_C06_single_commit_duplicate_add(t *zzT) { zzH_C09_single_commit_duplicate_add(t) }
